@@ -6,6 +6,8 @@ import Uniflow.Props.C04TieFn1
 import Uniflow.Props.C02TieFn1
 import Uniflow.Props.C02TieFn2
 import Uniflow.Props.C01TieFn1
+import Uniflow.Props.C01TieLayer
+import Uniflow.Props.C02TieLayer
 
 theorem C05.dep_C04_process_process_as_modelled_1 : type_of% C04.src_process_process_as_modelled_1 := C04.src_process_process_as_modelled_1
 theorem C05.dep_C04_process_process_as_modelled_2 : type_of% C04.src_process_process_as_modelled_2 := C04.src_process_process_as_modelled_2
@@ -14,3 +16,6 @@ theorem C05.dep_C02_node_onetoone_as_modelled : type_of% C02.src_node_onetoone_a
 theorem C05.dep_C02_node_onetomany_as_modelled : type_of% C02.src_node_onetomany_as_modelled := C02.src_node_onetomany_as_modelled
 theorem C05.dep_C02_node_manytoone_as_modelled : type_of% C02.src_node_manytoone_as_modelled := C02.src_node_manytoone_as_modelled
 theorem C05.dep_C01_packet_packet_as_modelled : type_of% C01.src_packet_packet_as_modelled := C01.src_packet_packet_as_modelled
+theorem C05.dep_C01_packet_hook_as_modelled : type_of% C01.src_packet_hook_as_modelled := C01.src_packet_hook_as_modelled
+theorem C05.dep_C02_node_node_as_modelled : type_of% C02.src_node_node_as_modelled := C02.src_node_node_as_modelled
+theorem C05.dep_C02_node_port_as_modelled : type_of% C02.src_node_port_as_modelled := C02.src_node_port_as_modelled
